@@ -167,6 +167,10 @@ fn main() {
             "T32u32bps" => tree_cmd::<tree::T32u32bps>(&a),
             "T32idtagu8" => tree_cmd::<tree::T32idtagu8>(&a),
             "T8idtagu8" => tree_cmd::<tree::T8idtagu8>(&a),
+            "T8b3b12" => tree_cmd::<tree::T8b3b12>(&a),
+            "T32b3u32" => tree_cmd::<tree::T32b3u32>(&a),
+            "T32u32unit" => tree_cmd::<tree::T32u32unit>(&a),
+            "T8u8unit" => tree_cmd::<tree::T8u8unit>(&a),
             "T8u8bps" => tree_cmd::<tree::T8u8bps>(&a),
             t => panic!("unknown tree type {t}"),
         },
@@ -179,6 +183,7 @@ fn main() {
             "HU128" => hset_cmd::<hset::HU128>(&a),
             "HTicket" => hset_cmd::<hset::HTicket>(&a),
             "HBps" => hset_cmd::<hset::HBps>(&a),
+            "HB12" => hset_cmd::<hset::HB12>(&a),
             t => panic!("unknown hset type {t}"),
         },
         "aset" => match a.get("type").unwrap_or("A8u8") {
@@ -195,6 +200,8 @@ fn main() {
             "A32keyed" => aset_cmd::<aset::A32keyed>(&a),
             "A64u8" => aset_cmd::<aset::A64u8>(&a),
             "A64u64" => aset_cmd::<aset::A64u64>(&a),
+            "A8b3" => aset_cmd::<aset::A8b3>(&a),
+            "A16b12" => aset_cmd::<aset::A16b12>(&a),
             t => panic!("unknown aset type {t}"),
         },
         "pstr" => {
